@@ -56,7 +56,7 @@ func mesh3(name string) (*model3d.Mesh, int, int) {
 	case "voxStairs":
 		return opsVoxelMesh([][3]int{{0, 0, 0}, {1, 0, 0}, {2, 0, 0}, {1, 0, 1}, {2, 0, 1}, {2, 0, 2}, {0, 1, 0}}), 2, 1
 	case "icofine":
-		return model3d.NewMeshIcosphere(model3d.XYZ(0.5, 0.25, 0), 2, 6), 2, 1
+		return model3d.NewMeshIcosphere(model3d.XYZ(0.5, 0.25, 0), 2, 4), 2, 1 // (320 faces: below the size limit of the chains)
 	case "ico":
 		return model3d.NewMeshIcosphere(model3d.XYZ(1, 2, 3), 2, 1), 2, 1
 	case "torus":
